@@ -454,6 +454,31 @@ def main():
         path = checklib.write_replay(PID, "cex%03d" % i, v)
         rep.violation(path, "%s | native: %s | case=%s [%d paths]" % (v["what"], verdict, json.dumps({k: v[k] for k in v if k in (
             "helper", "function", "lang", "ndest", "nsrc", "ntrim", "len", "src_is_null")}), total.vcount.get(key, 1)))
+    # engine validation: non-violating sample paths replayed natively (helpers against the rule, wrappers
+    # against the symbolic run's own observables)
+    from concurrent.futures import ThreadPoolExecutor
+    todo = []
+    for cls, lst in sorted(total.samples.items()):
+        todo.append(lst[0])
+    if tier == "quick":
+        todo = todo[(seed % 3)::3]
+
+    def val(s0):
+        try:
+            if s0.get("kernel") == "helper":
+                return s0, replay_helper(s0)
+            return s0, cw.validate_sample(s0)
+        except Exception as ex:
+            return s0, "validation error %s: %s" % (type(ex).__name__, ex)
+    validated = 0
+    with ThreadPoolExecutor(max_workers=12) as tp:
+        for s0, verdict in tp.map(val, todo):
+            if verdict is None:
+                validated += 1
+            elif verdict == "SKIP":
+                pass
+            else:
+                rep.inconc("engine validation failed for %s: %s" % (s0.get("helper") or s0.get("function"), verdict[:300]))
     samples = []
     for cls, lst in sorted(total.samples.items()):
         s0 = dict(lst[0])
@@ -471,6 +496,7 @@ def main():
         "solver": {"name": "z3 " + z3.get_version_string(), "queries": total.stats.queries, "solver_s": round(total.stats.solver_s, 2)},
         "paths": total.stats.paths,
         "assertions_discharged": total.counters.get("assertions", 0),
+        "sample_paths_validated_natively": validated,
         "reachability_twin_ok": twin_ok,
         "outcome_classes": dict(total.counts),
         "runs": runs,
